@@ -333,6 +333,13 @@ def gen_C04(tier, seed, unit, nunits):
         for x in sorted(vals):
             for fm in (CV_FORMS if tier != 'quick' else rng.sample(CV_FORMS, 4)):
                 out.append(req('cv_' + fm, s1, n1, f1, x, s2, n2, f2))
+        # the infallible conversions exist only for admissible pairs (the harness answers SKIP for the others)
+        adm_int = (n1 - f1 <= n2 - f2) if s1 == s2 else (s1 == 0 and s2 == 1 and n1 - f1 + 1 <= n2 - f2)
+        if adm_int:
+            for x in sorted(vals):
+                out.append(req('cvt_lossy', s1, n1, f1, x, s2, n2, f2))
+                if f1 <= f2 and n1 < n2:
+                    out.append(req('cvt_from', s1, n1, f1, x, s2, n2, f2))
     for (s, n, f) in unit_layouts(G.small_layouts(), unit, nunits):
         rng = random.Random(f'{seed}/C04/i/{s}/{n}/{f}')
         E = G.edges(s, n, f)
@@ -612,10 +619,10 @@ PROPS = {
     'C15': dict(lean_modules=['SfxProps.C15'], bins=['math'], profiles=['rel'], gen=gen_C15, oracle=True),
     'C16': dict(lean_modules=['SfxProps.C16'], bins=['math'], profiles=['rel'], gen=gen_C16, oracle=True),
     'C17': dict(lean_modules=['SfxProps.C17'], bins=['math'], profiles=['rel'], gen=gen_C17),
-    'C08': dict(lean_modules=['SfxProps.C08'], bins=['text'], profiles=['chk', 'rel'], gen=gen_C08, in_c11=False),
-    'C09': dict(lean_modules=['SfxProps.C09'], bins=['text'], profiles=['chk', 'rel'], gen=gen_C09, in_c11=False),
-    'C11': dict(lean_modules=['SfxProps.C11'], bins=['arith', 'wrap', 'conv', 'math'], profiles=['chk', 'rel'], gen=gen_C11,
-                rule='union of the request corpora of C01 C02 C06 C07 C18 C04 C05 C03 C12 (sub-sampled in quick), each request executed by the harness built with and '
+    'C08': dict(lean_modules=['SfxProps.C08'], bins=['text'], profiles=['chk', 'rel'], gen=gen_C08),
+    'C09': dict(lean_modules=['SfxProps.C09'], bins=['text'], profiles=['chk', 'rel'], gen=gen_C09),
+    'C11': dict(lean_modules=['SfxProps.C11'], bins=['arith', 'wrap', 'conv', 'math', 'text'], profiles=['chk', 'rel'], gen=gen_C11,
+                rule='union of the request corpora of C01 C02 C06 C07 C18 C04 C05 C03 C12 C08 C09 (sub-sampled in quick), each request executed by the harness built with and '
                      'without debug assertions/overflow checks and compared with the model projections; non-trivial = some operand magnitude > 1'),
     'C02': dict(lean_modules=['SfxProps.C02'], bins=['arith'], profiles=['chk', 'rel'], gen=gen_C02, thorough_all_fracs=True),
 }
